@@ -210,7 +210,13 @@ def run_wb2native(c):
                             res["v"].append(dict(kind="ack-after-abort", adr=b["adr"]))
                     break   # the rest of an aborted burst is not issued
         yield [wb.stb.eq(0), wb.cyc.eq(0)]
-        for _ in range(400):
+        quiet, last = 0, None
+        for _ in range(30000):
+            now = (stub.seq, len(stub.wbeats[0]), len(stub.rbeats[0]), stub.outstanding())
+            quiet = quiet + 1 if now == last else 0
+            last = now
+            if quiet > 900 and stub.outstanding() == 0:
+                break
             yield
         state["done"] = True
 
